@@ -729,6 +729,9 @@ func (c *valCtx) ruleVariables() {
 			if v.Default == nil {
 				continue
 			}
+			if c.s.Type(v.Type.Name) == nil {
+				continue // unknown type: KnownTypeNames reports it, this rule stays silent (DESIGN §3.2)
+			}
 			if v.Type.NonNull() {
 				c.add("DefaultValuesOfCorrectType", fmt.Sprintf("variable $%s of non-null type %s has a default", v.Name, v.Type), v.Default, v)
 				continue
